@@ -59,6 +59,7 @@ func (db *DB) compact(sourceSeg *segment) (CompactionResult, error) {
 	db.mu.Lock()
 	sourceSeg.meta.Full = true // Prevent writes to the compacted file.
 	db.mu.Unlock()
+	verifYield("compact.sealed")
 
 	it, err := newSegmentIterator(sourceSeg)
 	if err != nil {
@@ -85,6 +86,7 @@ func (db *DB) compact(sourceSeg *segment) (CompactionResult, error) {
 			}
 			return err
 		}()
+		verifYield("compact.record")
 		if err == ErrIterationDone {
 			break
 		}
@@ -143,6 +145,7 @@ func (db *DB) Compact() (CompactionResult, error) {
 	db.mu.RLock()
 	segments := db.pickForCompaction()
 	db.mu.RUnlock()
+	verifYield("compact.picked")
 
 	for _, seg := range segments {
 		segcr, err := db.compact(seg)
